@@ -65,6 +65,8 @@ type jsgen struct {
 	noFnInBlock bool
 	features    map[string]int
 	budget      int
+	sib         int
+	evalSibs    bool // put the sibling-direct-eval shape into the program
 }
 
 func (g *jsgen) newID() string { g.id++; return fmt.Sprintf("\"d%d\"", g.id) }
@@ -511,11 +513,80 @@ func (g *jsgen) stmt(c *jctx, depth int, ind string) string {
 			g.features["function-in-block"]++
 			bc := &jctx{sc: bs, labels: c.labels, strict: c.strict, inClass: c.inClass}
 			return fmt.Sprintf("%s{\n%s  function %s() {}\n%s  $s(%s, %s);\n%s%s}\n", ind, ind, n, ind, n, g.newID(), g.body(bc, depth+1, ind+"  ", 1), ind)
+		case 15: // sibling functions with direct eval (nested placement)
+			if deep || g.module || !g.evalSibs || c.inClass || c.inWith || g.sib > 3 {
+				continue
+			}
+			return g.evalSiblings(c, ind)
 		default:
 			return g.probe(c, ind)
 		}
 	}
 	return g.probe(c, ind)
+}
+
+// Two or three sibling functions that each contain a direct eval; the later ones have
+// parameters with the short names a minifier hands out first (pinned by their eval) and a
+// nested helper WITHOUT eval whose own parameters are renamable and which reads the pinned
+// outer names: if a pinned name of a later sibling is not reserved, the helper's parameter
+// captures it.
+var evalShort = []string{"e", "t", "n", "a", "i", "o", "r", "s", "l", "c", "u", "d"}
+
+func (g *jsgen) evalSiblings(c *jctx, ind string) string {
+	g.features["direct-eval-siblings"]++
+	var sb strings.Builder
+	g.sib++
+	nsib := g.r.Range(2, 3)
+	var calls []string
+	for k := 0; k < nsib; k++ {
+		fname := fmt.Sprintf("sibling%d_%d", g.sib, k)
+		if c.sc.isFunc {
+			c.sc.addVar(fname)
+		} else {
+			c.sc.addLex(fname)
+		}
+		// pinned short parameter names
+		np := g.r.Range(3, 8)
+		perm := append([]string{}, evalShort...)
+		for i := len(perm) - 1; i > 0; i-- {
+			j := g.r.Intn(i + 1)
+			perm[i], perm[j] = perm[j], perm[i]
+		}
+		ps := perm[:np]
+		var args []string
+		for range ps {
+			args = append(args, g.newID())
+		}
+		fmt.Fprintf(&sb, "%sfunction %s(%s) {\n", ind, fname, strings.Join(ps, ", "))
+		if k > 0 || g.r.Bool() {
+			// helper without eval: renamable parameters, reads the pinned outer names
+			hname := fmt.Sprintf("helper%d_%d", g.sib, k)
+			hp := []string{"valueArg", "extraArg", "thirdArg", "fourthArg"}[:g.r.Range(2, 4)]
+			var hargs []string
+			for range hp {
+				hargs = append(hargs, g.newID())
+			}
+			fmt.Fprintf(&sb, "%s  function %s(%s) {\n", ind, hname, strings.Join(hp, ", "))
+			for _, p := range hp {
+				fmt.Fprintf(&sb, "%s    $q(%d, () => $v(%s));\n", ind, g.newTag(), p)
+			}
+			for _, p := range ps {
+				fmt.Fprintf(&sb, "%s    $q(%d, () => $v(%s));\n", ind, g.newTag(), p)
+			}
+			fmt.Fprintf(&sb, "%s  }\n", ind)
+			if g.r.Bool() {
+				fmt.Fprintf(&sb, "%s  %s(%s);\n", ind, hname, strings.Join(hargs, ", "))
+			} else {
+				fmt.Fprintf(&sb, "%s  eval(\"%s(%s)\");\n", ind, hname, strings.ReplaceAll(strings.Join(hargs, ", "), "\"", "'"))
+			}
+		}
+		fmt.Fprintf(&sb, "%s  $q(%d, () => eval(\"$v(%s)\"));\n%s}\n", ind, g.newTag(), ps[g.r.Intn(len(ps))], ind)
+		calls = append(calls, fmt.Sprintf("%s%s(%s);\n", ind, fname, strings.Join(args, ", ")))
+	}
+	for _, cl := range calls {
+		sb.WriteString(cl)
+	}
+	return sb.String()
 }
 
 // a whole script (classic script: runs in a vm context)
@@ -530,7 +601,13 @@ func (g *jsgen) script(nstmts int) (src string, top []string) {
 	if g.props {
 		fmt.Fprintf(&sb, "$g.$o = { foo_: %s, bar_: %s, a_: %s, x2_: %s, baz_: %s, a: \"pa\", b: \"pb\", e: \"pe\" };\n", g.newID(), g.newID(), g.newID(), g.newID(), g.newID())
 	}
+	if g.evalSibs && g.r.Bool() {
+		sb.WriteString(g.evalSiblings(c, ""))
+	}
 	sb.WriteString(g.body(c, 0, "", nstmts))
+	if g.evalSibs {
+		sb.WriteString(g.evalSiblings(c, ""))
+	}
 	return sb.String(), ts.all
 }
 
